@@ -373,7 +373,9 @@ def _eval_case(case):
 def _monitor(case: dict, res: dict) -> list[Violation]:
     """Exactly the two sentences of the property: (1) every (old, new) a listener is given is a documented edge;
     (2) a call that returned False / raised InvalidStateTransition wrote no field, cancelled no live task, removed no
-    file, notified nobody. (Plus: a call must end in True/False/InvalidStateTransition, not in another exception.)
+    file, notified nobody; a call that is not allowed (by the documented graph, in the state the transfer is in) and
+    changed nothing must not report success. (Plus: a call must end in True/False/InvalidStateTransition, not in
+    another exception.)
     Deliberately NOT flagged here: an allowed request that is refused, a method that moves along a documented edge to
     a state it is not named after — those break `C03_table_complete` / `C03_table_sound` or the correspondence."""
     vs = []
@@ -411,6 +413,14 @@ def _monitor(case: dict, res: dict) -> list[Violation]:
             elif i > 0 and log[i - 1]['fx'] != e['fx']:
                 vs.append(Violation('C03-refused-with-effect',
                                     f"{d}: the local file changed while call {cid} ({meth_of.get(cid)}) was refused", case))
+        if e['kind'] == 'ret' and e['code'] == 'T':
+            cid, m = e['who'], meth_of.get(e['who'])
+            moved = any(x['who'] == cid and x['kind'] == 'event' for x in log)
+            if not moved and m in METHODS and (e['cur'], spec_target(d, m)) not in SPEC_EDGES[d]:
+                vs.append(Violation('C03-not-refused',
+                                    f"{d}: {m}() (call {cid}) is not allowed in state {e['cur']}, changed nothing, yet "
+                                    f"reported success instead of False / InvalidStateTransition", case,
+                                    observed='returned normally', required='refused'))
         if e['kind'] == 'ret' and e['code'][0] in ('E', '?'):
             vs.append(Violation('C03-impl-error', f"call {e['who']} ({meth_of.get(e['who'])}) ended with {e['code']}", case))
     return vs
